@@ -225,6 +225,7 @@ def run(ctx):
                "floor", "ceiling"}
     p.neg = p.neg_literal = False
     p.bare_bool_column = False
+    p.bare_bool_literal = True
     p.bool_cmp_atoms = False
     p.pattern_columns = False
     p.pattern_exprs = False
